@@ -217,6 +217,19 @@ def p2d_text(S, dt):
     return "(MkP2 %s)" % " ".join(fhex(v) for v in vals)
 
 
+def max2d_hypotheses(S, dt):
+    """the hypotheses of C07_2D_cooling_step_max_principle evaluated on a real 2D run (dict of name -> bool)"""
+    c = S.const
+    lam0 = c["solid_fraction"] * c["lambda_s"] + (1 - c["solid_fraction"]) * c["lambda_w"]
+    a = lam0 / (c["cp_solution"] * c["rho_l"]) * dt
+    dz, dr = c["height"] / 30, (c["diameter"] / 2) / 15
+    K = S.k["s0"]
+    Kw = (1 / K + c["air_gap"] / c["lambda_air"]) ** (-1) if c["configuration"] == "jacket" else 0.0
+    r = np.linspace(0, c["diameter"] / 2, 15)
+    return dict(cfl=4 * a / dr ** 2 + 2 * a / dz ** 2 <= 1, radius=bool(np.all(dr <= 2 * r[1:])),
+                biot_shelf=0 <= K * dz / lam0 <= 1, biot_wall=0 <= Kw * dr / lam0 <= 1)
+
+
 def qe_2d(S, Ttop, t, liquid_stage):
     """evaporative heat flux per column as the 2D loops compute it (both stages use the ice correlation)"""
     import ethz_snow.utils as U
